@@ -169,6 +169,68 @@ PROPS["C07"] = dict(
     level_note="Trusted: Kani/CBMC; BTreeMap contract model. Partial claim: only the cursor algebra, not Acked::ack + SQLite.",
 )
 
+# ------------------------------------------------------------------------------------------------
+# unit "dedup": S2 mount of p2panda-sync/src/dedup.rs
+# ------------------------------------------------------------------------------------------------
+UNITS["dedup"] = dict(
+    name="dedup",
+    stage=[("repo",), ("crate", "harness/dedup"), ("lock",), SYM, COLLECTIONS,
+           ("mount", "p2panda-sync/src/dedup.rs", "src/staged/dedup.rs",
+            [(r"^use std::collections::\{HashSet, VecDeque\};$", "use crate::verif_models::{HashSet, VecDeque};", 1), STRIP_TESTS])],
+    repo_paths=["src/staged/"],
+    functions=[("p2panda-sync/src/dedup.rs", "DeduplicationBuffer::new", r"pub fn new\(capacity: usize\)"),
+               ("p2panda-sync/src/dedup.rs", "DeduplicationBuffer::insert", r"pub fn insert\(&mut self, item: T\)"),
+               ("p2panda-sync/src/dedup.rs", "DeduplicationBuffer::contains", r"pub fn contains\(&self, item: &T\)")],
+    harnesses=[dict(name="cap%d_len%d" % (c, n), prop="C24", tier=t, timeout=600,
+                    encodes="DeduplicationBuffer::{new,insert,contains}",
+                    bounds="capacity %d, every sequence of %d inserts over a 4-letter alphabet (4^%d sequences, decided symbolically)" % (c, n, n))
+               for (c, n, t) in [(1, 5, "quick"), (2, 5, "quick"), (3, 5, "quick"), (2, 7, "thorough"), (3, 7, "thorough"), (4, 7, "thorough")]],
+)
+PROPS["C24"] = dict(
+    units=["dedup"],
+    trusted_base=["Kani 0.68 / CBMC 6.11 / cadical",
+                  "model: std VecDeque/HashSet replaced by inline-array contract models; VecDeque::with_capacity(c).capacity() == c exactly (std guarantees >=; exact on the pinned toolchain, confirmed by the native replay path)"],
+    assumptions=["alphabet of 4 letters, sequences of <= 5 (quick) / 7 (thorough) inserts, capacities 1..4"],
+    bounds="capacities 1-3 x all 4^5 sequences (quick); capacities 2-4 x all 4^7 sequences (thorough)",
+    outside="'random long' sequences; capacities beyond 4; std's real capacity rounding for other toolchains",
+    level_text=("Bounded model checking of the real DeduplicationBuffer against a shift-register reference: for every insert sequence inside the bound, insert()/contains() "
+                "report a duplicate exactly for the last `capacity` distinct accepted items and the buffer never holds more than `capacity`."),
+    level_note="Trusted: Kani/CBMC; VecDeque/HashSet contract models (capacity() exact).",
+)
+
+# ------------------------------------------------------------------------------------------------
+# unit "backoff": S2 include! of p2panda-net/src/discovery/backoff.rs
+# ------------------------------------------------------------------------------------------------
+INNER_DOCS = (r"^//!", "//", "*")
+UNITS["backoff"] = dict(
+    name="backoff",
+    stage=[("repo",), ("crate", "harness/backoff"), ("lock",), SYM,
+           ("mount", "p2panda-net/src/discovery/backoff.rs", "src/staged/backoff.rs", [INNER_DOCS, STRIP_TESTS])],
+    repo_paths=["src/staged/"],
+    functions=[("p2panda-net/src/discovery/backoff.rs", "Backoff::new", r"pub fn new\(config: Config"),
+               ("p2panda-net/src/discovery/backoff.rs", "Backoff::increment", r"pub fn increment\(&mut self\)"),
+               ("p2panda-net/src/discovery/backoff.rs", "Backoff::reset", r"pub fn reset\(&mut self\)")],
+    harnesses=[
+        dict(name="unit::proofs::step_default_config", prop="C28", timeout=300, encodes="Backoff::increment (+reset) with Config::default()",
+             bounds="one step from an arbitrary in-bounds state: value in [initial,max] (ms), arbitrary elapsed time < 2^40 ms, arbitrary draws inside the configured ranges"),
+        dict(name="unit::proofs::step_any_config", prop="C28", timeout=300, encodes="Backoff::increment (+reset), symbolic Config",
+             bounds="as above for every config with initial <= max, min_inc < max_inc, min_reset < max_reset (all < 2^32 ms)"),
+        dict(name="unit::proofs::new_and_reset_start_at_initial", prop="C28", timeout=300, encodes="Backoff::new, Backoff::reset", bounds="symbolic Config"),
+    ],
+)
+PROPS["C28"] = dict(
+    units=["backoff"],
+    trusted_base=["Kani 0.68 / CBMC 6.11 / cadical",
+                  "stubs: Instant::now/elapsed (arbitrary elapsed time), Backoff::random_increment/random_reset_after (arbitrary value inside [lo,hi), the contract of random_range)"],
+    assumptions=["durations with millisecond granularity (seconds < 2^32); symbolic configs in whole seconds < 2^16",
+                 "representation invariant assumed for the pre-state: initial <= value <= max (re-established by every step, which is what is checked)"],
+    bounds="one inductive step from an arbitrary in-bounds state, default and symbolic configs",
+    outside="ChaCha20 itself; tokio::time::sleep",
+    level_text=("Bounded model checking of the real Backoff::increment/reset/new as one inductive step from an arbitrary in-bounds state with symbolic elapsed time and RNG draws: "
+                "the delay stays within [initial, max], returns to initial once the reset interval elapsed, and grows otherwise — for every config, not one seed."),
+    level_note="Trusted: Kani/CBMC; clock and RNG replaced by arbitrary values within their documented ranges.",
+)
+
 PROPS["C18"].update(
     level_text=("Bounded model checking of the real HybridTimestamp::increment: the solver decides the strict-increase "
                 "assertion for every 64-bit (timestamp, lamport, wall-clock) triple and for chains of two increments with "
